@@ -263,19 +263,33 @@ def wrap(ty: Ty, e):
     raise Unsupported(f"cannot wrap sort for {ty}")
 
 
+_SIMP_CACHE = {}
+
+
 def simp(e):
     """Constant folding only: the simplified term is used when it is a literal; otherwise the
     original term is kept, so that exported VCs contain no z3-internal symbols (seq.nth_i/u)
-    and can be read by cvc5."""
+    and can be read by cvc5.  Memoised on the (hash-consed) term."""
     try:
-        r = z3.simplify(e)
+        k = e.get_id()
     except Exception:
         return e
-    if z3.is_int_value(r) or z3.is_true(r) or z3.is_false(r) or z3.is_rational_value(r):
-        return r
-    if z3.is_int(e) and r.num_args() == 0:
-        return r
-    return e
+    hit = _SIMP_CACHE.get(k)
+    if hit is not None:
+        return hit[1]
+    if e.num_args() == 0:
+        r = e
+    else:
+        try:
+            r = z3.simplify(e)
+        except Exception:
+            r = e
+        if not (z3.is_int_value(r) or z3.is_true(r) or z3.is_false(r) or z3.is_rational_value(r) or (z3.is_int(e) and r.num_args() == 0)):
+            r = e
+    if len(_SIMP_CACHE) > 400000:
+        _SIMP_CACHE.clear()
+    _SIMP_CACHE[k] = (e, r)
+    return r
 
 
 def concrete_of(e):
